@@ -286,7 +286,7 @@ def configs_for(prop, tier):
                  ops=["NewListOf", "Replace", "Clone", "Add", "Pop"], conc=["plain"], obs="equals", depth=3, walks=3000, walklen=15),
             dict(name="clone-insert", maxrefs=2, nkeys=1, maxlen=4, scalars=[("int", 1), ("int", 2)], argrefs=False, slack=0,
                  ops=["NewList", "NewList2", "Add", "Insert", "Clone", "Pop"], conc=["plain"], obs="equals", depth=4, walks=3000, walklen=15),
-            dict(name="clone-table", maxrefs=8, buildrefs=4, nkeys=1, maxlen=2, scalars=[("int", 1)], ops=["NewObject", "NewList2", "Clone"],
+            dict(name="clone-table", maxrefs=8, buildrefs=4, nkeys=1, maxlen=2, scalars=[("int", 1)], lits=[("L", [])], arglits=[1], ops=["NewObject", "NewListRR", "Clone"],
                  conc=["plain"], obs="equals", depth=4, walks=3000, walklen=8),
             dict(name="clone-alias-r5", maxrefs=5, buildrefs=2, nkeys=1, maxlen=2, scalars=[("int", 1)],
                  ops=["NewList", "NewList2", "NewListOf", "NewObject", "Clone", "CloneO"],
